@@ -9,12 +9,16 @@ from .elfutil import concretise
 
 def vocabulary():
     from elftools.elf import descriptions as D
+    from elftools.elf import enums as E
 
     def keys(d):
         return sorted(k for k in d if isinstance(k, str))
     return {'EM': keys(D._DESCR_E_MACHINE), 'OSABI': keys(D._DESCR_EI_OSABI), 'ET': keys(D._DESCR_E_TYPE),
             'SHT': keys(D._DESCR_SH_TYPE), 'PT': keys(D._DESCR_P_TYPE), 'STT': keys(D._DESCR_ST_INFO_TYPE),
             'STB': keys(D._DESCR_ST_INFO_BIND), 'STV': keys(D._DESCR_ST_VISIBILITY), 'SHN': keys(D._DESCR_ST_SHNDX),
+            'RELOC_386': keys(E.ENUM_RELOC_TYPE_i386), 'RELOC_X64': keys(E.ENUM_RELOC_TYPE_x64), 'RELOC_ARM': keys(E.ENUM_RELOC_TYPE_ARM),
+            'RELOC_AARCH64': keys(E.ENUM_RELOC_TYPE_AARCH64), 'RELOC_PPC64': keys(E.ENUM_RELOC_TYPE_PPC64), 'RELOC_PPC': keys(E.ENUM_RELOC_TYPE_PPC),
+            'RELOC_S390': keys(E.ENUM_RELOC_TYPE_S390X), 'RELOC_MIPS': keys(E.ENUM_RELOC_TYPE_MIPS), 'RELOC_LARCH': keys(E.ENUM_RELOC_TYPE_LOONGARCH),
             'DT': sorted(k for k in __import__('elftools.elf.enums', fromlist=['x']).ENUM_D_TAG if isinstance(k, str) and k != '_default_')}
 
 
